@@ -16,7 +16,19 @@ Tolerances (clean-tree errors measured over 1500-5000 random cases, see the meta
                      summation bound for 144 pixels and coordinates <= 11 is ~1e-4)
   TOL_FIT32 1e-3 px  float32 PCA plane / mean (measured max 2.1e-5 on the steepest planes)
   TOL_FIT64 1e-6 px  float64 curve_fit / mean (measured max 2.5e-9)
-  TOL_ROLL  2e-5 * max|pattern|  grid_sample at integer positions (measured max 1.2e-6, bicubic)
+  TOL_ROLL  (2e-5 + 1e-6 * longest side) * max|pattern|  grid_sample at integer positions: the float32
+                     normalised grid is off by ~side * 6e-8 px, which bilinear/bicubic weights pass on
+                     (measured max 1.2e-6 for sides <= 12, 5.4e-8 * side for sides up to 600)
+
+Two more kinds run HISTORIES on one instance (results must not depend on what the instance did before):
+ohist  one CenterOfMassOriginModel: measure / replace the data through the `tensor` setter / set
+       origin_measured, origin_fitted, shifted_tensor, device through their setters / fit / shift in
+       drawn orders; every measurement == oracle of the CURRENT data, every fit of exactly planar
+       measured origins == that surface, every shift with integer fitted origins == roll of the
+       CURRENT data.
+dhist  one PtychographyDatasetRaster: _set_intensities_com (explicit argument or the stored
+       intensities_4d, either path, drawn masks) and preprocess() called repeatedly while
+       intensities_4d / com_measured / com_fit are replaced through their setters.
 """
 
 from __future__ import annotations
@@ -30,7 +42,8 @@ from vq.refs import c18_oracle as ref
 TOL_COM = 1e-3
 TOL_FIT32 = 1e-3
 TOL_FIT64 = 1e-6
-TOL_ROLL = 2e-5
+TOL_ROLL = 2e-5  # + TOL_ROLL_PER_PX * longest detector side
+TOL_ROLL_PER_PX = 1e-6
 UNITS = ["A", "A", "A^-1", "A^-1"]
 # known-finding key (only consulted when known_findings.json lists it as an open finding): the
 # curve_fit based fitter raises RuntimeError (MINPACK info=8) on some origin maps that it fits exactly
@@ -278,11 +291,13 @@ def _check_shift(ctx, case):
     bs = case["batch"]
     nondividing = bs is not None and 1 < bs < n and n % bs != 0
     moved = any(r != c and (r, c) != (0, 0) for r, c in full)
+    enumerated = case.get("enumerated_side") is not None
     ctx.record(
         case,
-        H != W and moved,
+        (H != W and moved) or (enumerated and any((r, c) != (0, 0) for r, c in full)),
         [
             "kind:shift",
+            "side:enumerated" if enumerated else "side:drawn",
             "mode:" + case["mode"],
             "origins:" + ("single" if len(origins) == 1 else "per_pattern"),
             "batch_nondividing" if nondividing else "batch_dividing_or_default",
@@ -296,20 +311,228 @@ def _check_shift(ctx, case):
         om.origin_fitted = torch.tensor(np.asarray(origins, dtype=np.float32))
         om.shift_origin_to((0, 0), max_batch_size=bs, mode=case["mode"])
         shifted = om.shifted_tensor
+    err = _judge_roll(case, "shift_origin_to((0,0))", shifted, arr, full)
+    ctx.extra["max_roll_err_rel"] = max(ctx.extra.get("max_roll_err_rel", 0.0), err)
+    ctx.extra["max_roll_err_rel_per_px"] = max(ctx.extra.get("max_roll_err_rel_per_px", 0.0), err / max(H, W))
+
+
+def _judge_roll(case, what, shifted, arr, full):
+    """shifted (a,b,H,W) must be every pattern of arr rolled so that its integer origin lands on [0,0]."""
+    a, b, H, W = arr.shape
+    n = a * b
     s = _np64(shifted)
     if s.shape != (a, b, H, W):
-        raise core.Violation("shifted_tensor has shape %s, expected %s" % (s.shape, (a, b, H, W)), case)
+        raise core.Violation("%s: shifted_tensor has shape %s, expected %s" % (what, s.shape, (a, b, H, W)), case)
     exp = ref.roll_to_corner(arr.reshape(n, H, W).astype(np.float64), full).reshape(a, b, H, W)
     scale = float(np.max(np.abs(arr)))
     err = core.maxerr(s, exp) / scale if np.all(np.isfinite(s)) else float("inf")
-    if not err <= TOL_ROLL:
+    tol_roll = TOL_ROLL + TOL_ROLL_PER_PX * max(H, W)
+    if not err <= tol_roll:
         k = int(np.argmax(np.abs(np.nan_to_num(s, nan=np.inf) - exp).reshape(n, -1).max(axis=1)))
         raise core.Violation(
-            "shift_origin_to((0,0)) with integer origins is not the circular roll: max error %.3g of max intensity "
-            "(tolerance %.0e); worst pattern %d with origin %s" % (err, TOL_ROLL, k, full[k]),
+            "%s with integer origins is not the circular roll: max error %.3g of max intensity "
+            "(tolerance %.1e); detector %dx%d, worst pattern %d with origin %s" % (what, err, tol_roll, H, W, k, full[k]),
             case,
         )
-    ctx.extra["max_roll_err_rel"] = max(ctx.extra.get("max_roll_err_rel", 0.0), err)
+    return err
+
+
+# ------------------------------------------------------------------------------------------------
+# kind "ohist": a history on one CenterOfMassOriginModel
+# ------------------------------------------------------------------------------------------------
+def _surface_kind(coef_r, coef_c):
+    """'constant' (both fits must return it) or 'plane' (only the plane fit must)."""
+    return "constant" if not any(coef_r[1:]) and not any(coef_c[1:]) else "plane"
+
+
+def _check_ohist(ctx, case):
+    torch, Dataset4dstem, Origin, _Raster, _pu = _q()
+    a, b = case["scan"]
+    H, W = case["det"]
+    n = a * b
+    versions = [gd.version_array(case, k) for k in range(len(case["data"]))]
+    oracles = [ref.com(v) for v in versions]
+
+    def planar_kind(k):
+        d = case["data"][k]
+        return _surface_kind(d["plane_r"], d["plane_c"]) if d["pattern"] == "delta" else None
+
+    steps = case["steps"]
+    # non-trivial: some measurement follows a replacement of the data by a different version that
+    # itself follows a measurement (the sequence a per-instance cache would get wrong)
+    cur, seen_measure, replaced_after_measure, remeasured = case["initial"], False, False, False
+    for st_ in steps:
+        if st_["op"] == "measure":
+            remeasured = remeasured or replaced_after_measure
+            seen_measure = True
+        elif st_["op"] == "set_tensor":
+            if seen_measure and st_["version"] != cur:
+                replaced_after_measure = True
+            cur = st_["version"]
+    ctx.record(
+        case,
+        bool(remeasured and H != W),
+        ["kind:ohist", "steps:%d" % len(steps)] + sorted({"ohist_op:" + st_["op"] for st_ in steps}),
+    )
+
+    cur = case["initial"]
+    with ctx.sut(case, "CenterOfMassOriginModel.from_dataset"):
+        om = Origin.from_dataset(Dataset4dstem.from_array(versions[cur].copy(), units=list(UNITS)), device="cpu")
+    measured = None  # None | ("surface", zr, zc, kind) | ("other",)
+    fitted_int = None  # integer origins currently stored in origin_fitted, else None
+    for i, st_ in enumerate(steps):
+        op = st_["op"]
+        tag = "step %d/%d %s" % (i + 1, len(steps), op)
+        if op == "set_tensor":
+            cur = st_["version"]
+            new = versions[cur].astype(np.float32)
+            with ctx.sut(case, tag):
+                om.tensor = torch.tensor(new) if st_["as"] == "torch" else versions[cur].copy()
+        elif op == "set_device":
+            with ctx.sut(case, tag):
+                om.device = "cpu"
+        elif op == "set_shifted":
+            with ctx.sut(case, tag):
+                om.shifted_tensor = torch.zeros((a, b, H, W))
+        elif op == "measure":
+            with ctx.sut(case, tag + "(max_batch_size=%r)" % (st_["batch"],)):
+                om.calculate_origin(st_["batch"])
+                m = _np64(om.origin_measured)
+            if m.shape != (n, 2):
+                raise core.Violation("%s: origin_measured has shape %s" % (tag, m.shape), case)
+            exp_r, exp_c = oracles[cur]
+            _judge_pair(
+                case,
+                "%s: calculate_origin(%r) vs float64 oracle of the data the model currently holds (version %d)" % (tag, st_["batch"], cur),
+                m[:, 0].reshape(a, b), m[:, 1].reshape(a, b), exp_r, exp_c, TOL_COM,
+            )  # fmt: skip
+            pk = planar_kind(cur)
+            measured = ("surface", exp_r, exp_c, pk) if pk else ("other",)
+        elif op == "set_measured":
+            zr, zc = ref.plane((a, b), st_["surf_r"]), ref.plane((a, b), st_["surf_c"])
+            with ctx.sut(case, tag):
+                om.origin_measured = torch.tensor(np.stack([zr.ravel(), zc.ravel()], axis=-1).astype(np.float32))
+            measured = ("surface", zr, zc, _surface_kind(st_["surf_r"], st_["surf_c"]))
+        elif op == "fit":
+            if measured is None:
+                ctx.count("ohist_skipped:fit_before_measure")
+                continue
+            with ctx.sut(case, tag + "(%r)" % st_["method"]):
+                om.fit_origin_background(fit_method=st_["method"])
+                f = _np64(om.origin_fitted)
+            fitted_int = None
+            if f.shape != (n, 2):
+                raise core.Violation("%s: origin_fitted has shape %s" % (tag, f.shape), case)
+            if measured[0] == "surface" and (measured[3] == "constant" or st_["method"] == "plane"):
+                _judge_pair(
+                    case,
+                    "%s: %s fit of measured origins that lie exactly on a %s" % (tag, st_["method"], measured[3]),
+                    f[:, 0].reshape(a, b), f[:, 1].reshape(a, b), measured[1], measured[2], TOL_FIT32,
+                )  # fmt: skip
+                ctx.count("ohist_judged:fit")
+        elif op == "set_fitted":
+            origins = [[int(r), int(c)] for r, c in st_["origins"]]
+            with ctx.sut(case, tag):
+                om.origin_fitted = torch.tensor(np.asarray(origins, dtype=np.float32))
+            fitted_int = origins * n if len(origins) == 1 else origins
+        elif op == "shift":
+            if fitted_int is None:
+                ctx.count("ohist_skipped:shift_without_integer_origin")
+                continue
+            with ctx.sut(case, tag + "(max_batch_size=%r, mode=%r)" % (st_["batch"], st_["mode"])):
+                om.shift_origin_to((0, 0), max_batch_size=st_["batch"], mode=st_["mode"])
+                sh = om.shifted_tensor
+            _judge_roll(case, "%s: shift_origin_to of the data the model currently holds (version %d)" % (tag, cur), sh, versions[cur].astype(np.float32), fitted_int)
+            ctx.count("ohist_judged:shift")
+        else:
+            raise ValueError("unknown op %r" % op)
+
+
+# ------------------------------------------------------------------------------------------------
+# kind "dhist": a history on one PtychographyDatasetRaster
+# ------------------------------------------------------------------------------------------------
+_COM_FRAMES = ("_set_intensities_com", "fit_origin", "perform_robust_fitting")
+
+
+def _check_dhist(ctx, case):
+    _torch, _D4, _Origin, Raster, _pu = _q()
+    a, b = case["scan"]
+    H, W = case["det"]
+    versions = [gd.version_array(case, k) for k in range(len(case["data"]))]
+    steps = case["steps"]
+    ncom = sum(st_["op"] in ("com", "preprocess") for st_ in steps)
+    changes = any(st_["op"] == "set_intensities" for st_ in steps[:-1])
+    ctx.record(
+        case,
+        bool(ncom >= 2 and changes and H != W),
+        ["kind:dhist", "steps:%d" % len(steps)] + sorted({"dhist_op:" + st_["op"] for st_ in steps}),
+    )
+    with ctx.sut(case, "PtychographyDatasetRaster.from_array"):
+        pd = Raster.from_array(versions[case["initial"]].copy(), units=list(UNITS), verbose=0)
+    stored = case["initial"]  # version held by pd.intensities_4d
+
+    def planar_ok(k, fit):
+        d = case["data"][k]
+        return d["pattern"] == "delta" and (_surface_kind(d["plane_r"], d["plane_c"]) == "constant" or fit == "plane")
+
+    for i, st_ in enumerate(steps):
+        op = st_["op"]
+        tag = "step %d/%d %s" % (i + 1, len(steps), op)
+        if op == "set_intensities":
+            stored = st_["version"]
+            with ctx.sut(case, tag):
+                pd.intensities_4d = versions[stored].copy()
+        elif op == "set_com":
+            with ctx.sut(case, tag):
+                pd.com_measured = np.zeros((2, a, b))
+                pd.com_fit = np.zeros((2, a, b))
+        elif op in ("com", "preprocess"):
+            fit, vec = st_["fit"], st_["vectorized"]
+            name = "vectorised" if vec else "looped"
+            if op == "com":
+                src = stored if st_["src"] == "attr" else st_["src"]
+                mask = gd.make_mask({"det": case["det"], "mask": st_["mask"]})
+                with ctx.sut(case, tag + " (read intensities)"):
+                    x = pd.intensities_4d.copy() if st_["src"] == "attr" else versions[src].astype(np.float32)
+                exp_r, exp_c = ref.com(x, mask)
+                try:
+                    with _fit_sut(ctx, case, "%s: _set_intensities_com(%s, mask=%s, fit=%r)" % (tag, name, "yes" if mask is not None else "no", fit)):
+                        pd._set_intensities_com(
+                            x.copy(), dp_mask=None if mask is None else mask.copy(), fit_function=fit, vectorized_calculation=vec
+                        )
+                        cm, cf = _np64(pd.com_measured), _np64(pd.com_fit)
+                except _ExactFitRaised:
+                    return
+            else:
+                src, mask = stored, None
+                with ctx.sut(case, tag + " (read intensities)"):
+                    x = pd.intensities_4d.copy()
+                exp_r, exp_c = ref.com(x)
+                try:
+                    pd.preprocess(com_fit_function=fit, plot_rotation=False, plot_com=False, vectorized=vec)
+                    cm, cf = _np64(pd.com_measured), _np64(pd.com_fit)
+                except Exception as e:  # noqa: BLE001
+                    import traceback
+
+                    frames = [fr.name for fr in traceback.extract_tb(e.__traceback__)]
+                    msg = str(e)
+                    if ctx.is_open(KEY_EXACT) and isinstance(e, RuntimeError) and "Optimal parameters not found" in msg and "gtol" in msg:
+                        ctx.exclude(KEY_EXACT)
+                        return
+                    if any(fn in _COM_FRAMES for fn in frames):
+                        raise core.Violation("%s: preprocess raised %s in the centre-of-mass step: %s" % (tag, type(e).__name__, msg[:300]), case)
+                    # the rest of preprocess (rotation estimate, resampling, patches) is not this property
+                    ctx.count("dhist_preprocess_failed_outside_com:" + type(e).__name__)
+                    return
+            if cm.shape != (2, a, b) or cf.shape != (2, a, b):
+                raise core.Violation("%s: com_measured/com_fit shapes %s/%s" % (tag, cm.shape, cf.shape), case)
+            is_version = np.array_equal(x, versions[src].astype(np.float32))  # preprocess must not have altered the store
+            _judge_pair(case, "%s: %s path vs float64 oracle of the current intensities (version %d)" % (tag, name, src), cm[0], cm[1], exp_r, exp_c, TOL_COM)
+            if mask is None and is_version and planar_ok(src, fit):
+                _judge_pair(case, "%s: %s fit of origins that lie exactly on such a surface" % (tag, fit), cf[0], cf[1], exp_r, exp_c, TOL_FIT32)
+                ctx.count("dhist_judged:fit")
+        else:
+            raise ValueError("unknown op %r" % op)
 
 
 def check(ctx, case):
@@ -320,10 +543,29 @@ def check(ctx, case):
         return _check_fit(ctx, case)
     if k == "shift":
         return _check_shift(ctx, case)
+    if k == "ohist":
+        return _check_ohist(ctx, case)
+    if k == "dhist":
+        return _check_dhist(ctx, case)
     raise ValueError("unknown case kind %r" % k)
 
 
+SIDES_QUICK = 128
+SIDES_THOROUGH = 600
+MODES = ["bilinear", "nearest", "bicubic"]
+
+
 def search(ctx):
-    core.run_given(ctx, "com", gd.com_cases(), lambda c: check(ctx, c), ctx.n(1500, 15000))
-    core.run_given(ctx, "fit", gd.fit_cases(), lambda c: check(ctx, c), ctx.n(1000, 10000))
-    core.run_given(ctx, "shift", gd.shift_cases(), lambda c: check(ctx, c), ctx.n(800, 8000))
+    core.run_given(ctx, "com", gd.com_cases(), lambda c: check(ctx, c), ctx.n(1300, 15000))
+    core.run_given(ctx, "fit", gd.fit_cases(), lambda c: check(ctx, c), ctx.n(900, 10000))
+    core.run_given(ctx, "shift", gd.shift_cases(), lambda c: check(ctx, c), ctx.n(600, 8000))
+    core.run_given(ctx, "ohist", gd.origin_history_cases(), lambda c: check(ctx, c), ctx.n(500, 6000))
+    core.run_given(ctx, "dhist", gd.dataset_history_cases(), lambda c: check(ctx, c), ctx.n(300, 3000))
+    # every detector side length, every interpolation mode: enumerated, not sampled (a wrap-around that
+    # fails only for particular sizes cannot hide behind the sampling of sizes)
+    top = SIDES_THOROUGH if ctx.thorough else SIDES_QUICK
+    per = 2 if not ctx.thorough else 3
+    for side in range(2, top + 1):
+        for mode in MODES:
+            core.run_given(ctx, "side-%d-%s" % (side, mode), gd.side_shift_cases(side, mode), lambda c: check(ctx, c), per)
+    ctx.extra["enumerated_sides"] = "2..%d x %s" % (top, "/".join(MODES))
